@@ -1,4 +1,4 @@
-import CgreenModel.Model.Runner
+import CgreenModel.Lemmas.Runner
 /-! Line protocol for runner scenarios (see harness/scenario.py for the grammar). -/
 namespace Cgreen.Drv
 open Cgreen
@@ -135,7 +135,10 @@ def runScenario (lines : List String) : List String :=
       | .node name su td subs tests =>
         let path := parent ++ [name]
         (subs.attach.map (fun ⟨c, _⟩ => perTest path c)).flatten ++
-        tests.map (fun t => s!"ttruth {showPath (path ++ [t.name])} {showCnt (t.truth ps.cfg.cap su td)}")
+        (tests.map (fun t =>
+          [s!"ttruth {showPath (path ++ [t.name])} {showCnt (t.truth ps.cfg.cap su td)} {if t.xskip then 0 else (runCode ps.cfg.cap [] su td t).fails}"] ++
+          (if !t.xskip && (runCode ps.cfg.cap [] su td t).abnormal && (runCode ps.cfg.cap [] su td t).pipe.contains .skipped
+           then [s!"notok {showPath (path ++ [t.name])}"] else []))).flatten
     let tt := match ps.single with
       | some n => perTest [] (t.restrict n)
       | none => perTest [] t
